@@ -82,7 +82,10 @@ def explicit_values(seed):
           [['plain', 'abc'], ['apply', R['o'], 0, 2, True], ['apply', R['q'], 1, 3, True]],     # non-canonical / multi-group texts
           # valid but unparsable verbatim settings (unknown code, value > 255, colon form): their lazily computed flags
           # are queried again and again by every rendering
-          [['plain', 'abc'], ['apply', R['u'], 0, 2, True], ['apply', '[1;300', 1, 3, True], ['apply', '[4:3', 0, 1, True]]]
+          [['plain', 'abc'], ['apply', R['u'], 0, 2, True], ['apply', '[1;300', 1, 3, True], ['apply', '[4:3', 0, 1, True]],
+          # three settings on one character (outer two ending together) and the conflict pattern X, Y, X
+          [['plain', 'abcd'], ['apply', R['R'], 0, 2, True], ['apply', R['W'], 0, 3, True], ['apply', R['U'], 0, 2, True]],
+          [['plain', 'abcd'], ['apply', R['R'], 0, 4, True], ['apply', R['B'], 1, 4, True], ['apply', R['R'], 2, 3, True]]]
     return [(h, build(h)) for h in hs]
 
 
